@@ -138,7 +138,14 @@ def gen_case(rng, gpg=None, stratum=None):
             # arbitrary signed content: no type binding applies, the named role's keys and threshold decide alone.
             usigned = gmd.delegating(rng.choice(["pkg_mgr", "other", role, "root", "key_mgr", "root", "key_mgr"]),
                                      {role: gmd.delegation(attackers[:1], 1)})
-            how = rng.choice(["del_expiration", "fractional_dates", "version_0", "delegations_list", "none_if_unsupported", "del_spec", "type_only"])
+            how = rng.choice(["del_expiration", "fractional_dates", "version_0", "delegations_list", "none_if_unsupported", "del_spec", "type_only",
+                              "timestamp_null", "version_null", "timestamp_empty", "expiration_null", "version_false"])
+            if how in ("timestamp_null", "timestamp_empty"):
+                usigned["timestamp"] = None if how == "timestamp_null" else ""
+            elif how in ("version_null", "version_false"):
+                usigned["version"] = None if how == "version_null" else False
+            elif how == "expiration_null":
+                usigned["expiration"] = None
             if how == "del_expiration":
                 usigned.pop("expiration")
             elif how == "fractional_dates":
@@ -241,7 +248,16 @@ def gen_case(rng, gpg=None, stratum=None):
         dd = trusted["signed"]["delegations"]
         victim = rng.choice(list(dd))
         how = rng.choice(["key_trailing_newline", "key_upper", "key_short", "key_space", "dup_key", "threshold_0", "threshold_str", "extra_field",
-                          "pubkeys_tuple", "del_expiration", "bad_date", "sig_value_junk", "envelope_extra", "type_unsupported", "key_mixed_case"])
+                          "pubkeys_tuple", "del_expiration", "bad_date", "sig_value_junk", "envelope_extra", "type_unsupported", "key_mixed_case",
+                          "timestamp_null", "version_null", "timestamp_empty", "expiration_null", "version_false", "version_zero", "timestamp_null",
+                          "version_null"])
+        # optional members that are PRESENT but hold nothing (null / "" / false / 0): present is present - they are malformed
+        if how in ("timestamp_null", "timestamp_empty"):
+            trusted["signed"]["timestamp"] = None if how == "timestamp_null" else ""
+        elif how in ("version_null", "version_false", "version_zero"):
+            trusted["signed"]["version"] = {"version_null": None, "version_false": False, "version_zero": 0}[how]
+        elif how == "expiration_null":
+            trusted["signed"]["expiration"] = None
         pk = dd[victim]["pubkeys"]
         if how.startswith("key_") and not pk:
             pk.append(U[0].hex)
